@@ -50,9 +50,10 @@ type RangeIter struct {
 }
 
 type GuardInfo struct {
-	Lock string // lock id term
-	Desc string
-	Tags []string
+	Lock     string // lock id term
+	Desc     string
+	Tags     []string
+	FreshRef string // reference of the object holding the guarded field (no lock needed if allocated by this call)
 }
 
 // Val is a symbolic value.
